@@ -24,7 +24,8 @@ ASSUMPTIONS = ['-D is driven by a scripted stdin answering "c"',
                'state not named in the property (sys.path, logging handlers, '
                'sys.modules) is not compared']
 FLOORS = {'snapshots_compared': 1500, 'effective_option_cases': 1000,
-          'aborted_runs': 500, 'kbint_runs': 300, 'option_effect_probes': 1400}
+          'aborted_runs': 500, 'kbint_runs': 300, 'option_effect_probes': 1400,
+          'warnoptions_cases': 200}
 BATCH_TIMEOUT = 600
 
 OPTS = ['gc', 'gcopt', 'coverage', 'profile', 'buffer', 'warnings', 'pm']
@@ -121,8 +122,18 @@ def run_case(case):
                'hooks': {'setUp': 'ok', 'tearDown': 'ok', 'testSetUp': 'ok',
                          'testTearDown': 'ok'}}]
     probe = {'ph': 'body', 'do': 'probe_state'}
-    t0 = {'name': 'test_0', 'kind': 'pass', 'actions': [probe]}
-    t1 = {'name': 'test_1', 'kind': 'pass', 'actions': []}
+    # every run changes the process-wide warnings filters from inside a test
+    # (so "the filters are restored" is never vacuous) ...
+    wf = {'ph': rng.choice(['setUp', 'body']), 'do': 'warn_filter',
+          'msg': 'vw-%d' % case['idx'],
+          'simple': rng.choice([None, 'ignore', 'error'])}
+    t0 = {'name': 'test_0', 'kind': 'pass', 'actions': [wf, probe]}
+    t1 = {'name': 'test_1', 'kind': 'pass',
+          'actions': [dict(wf, msg=wf['msg'] + 'b', simple=None)]}
+    # ... and a third of the runs without a warnings= argument behave as if
+    # the interpreter had been started with -W (sys.warnoptions non-empty:
+    # the runner then installs no filter of its own)
+    wopt = 'warnings' not in subset and rng.random() < 0.34
     t2 = {'name': 'test_2', 'kind': 'pass', 'actions': []}
     plan = {}
     opts = {'verbose': rng.randint(0, 2)}
@@ -207,15 +218,26 @@ def run_case(case):
         counters[k] = counters.get(k, 0) + n
 
     def V(rule, mech, **d):
-        d.update(subset=subset, ending=ending, argv=argv, warn=warn)
+        d.update(subset=subset, ending=ending, argv=argv, warn=warn,
+                 warnoptions=wopt)
         if len(viol) < 8:
             viol.append({'rule': rule, 'mech': mech, 'detail': d})
 
+    import warnings as _warnings
+    saved_filters = list(_warnings.filters)
+    saved_wopt = list(sys.warnoptions)
+    if wopt:
+        sys.warnoptions[:] = ['ignore::ImportWarning']
+        C('warnoptions_cases')
     try:
         w = common.run_world(spec, plan, opts, extra_argv=argv, pre=pre,
                              post=post, warnings=warn, stdin=stdin)
     finally:
         # never let one case's leftovers reach the next one
+        sys.warnoptions[:] = saved_wopt
+        _warnings.filters[:] = saved_filters
+        if hasattr(_warnings, '_filters_mutated'):
+            _warnings._filters_mutated()
         restore_state(before)
         del gc.garbage[gc_garbage_before:]
         vworld.destroy(scratch)
@@ -274,10 +296,10 @@ def run_case(case):
         C('effective_option_cases')
     sig = None
     if effective and (aborted or ending in ('failing', 'stop')):
-        sig = [subset, ending]
+        sig = [subset, ending, wopt]
     return {'viol': viol, 'evals': 1, 'sig': sig, 'counters': counters,
             'sample': {'subset': subset, 'ending': ending, 'argv': argv,
-                       'warnings': warn,
+                       'warnings': warn, 'warnoptions': wopt,
                        'raised': type(w.raised).__name__ if aborted else None,
                        'probe': probes[0] if probes else None}}
 
